@@ -34,7 +34,7 @@ import (
 	"strings"
 )
 
-const extractorVersion = "c18-extract-8"
+const extractorVersion = "c18-extract-9"
 
 var excludedPkgs = map[string]string{
 	"draw":     "graphical output",
@@ -50,7 +50,17 @@ type siteRec struct {
 func normSrc(fset *token.FileSet, n ast.Node) string {
 	var b bytes.Buffer
 	printer.Fprint(&b, fset, n) // comments are not attached to sub-nodes: they are not printed
-	return strings.Join(strings.Fields(b.String()), " ")
+	// the verification hook `VerifYield()` (an empty function without the build tag `verif`, a
+	// scheduling point with it) is not part of a fingerprint: its call statements are dropped
+	var lines []string
+	for _, l := range strings.Split(b.String(), "\n") {
+		t := strings.TrimSpace(l)
+		if t == "tree.VerifYield()" || t == "VerifYield()" {
+			continue
+		}
+		lines = append(lines, l)
+	}
+	return strings.Join(strings.Fields(strings.Join(lines, "\n")), " ")
 }
 
 func hash12(parts ...string) string {
@@ -286,9 +296,15 @@ func addressy(t types.Type, stringer, errT *types.Interface, depth int) bool {
 
 // Extract computes the two tables.
 func Extract(repo string) (sites, sources []siteRec, typeErrs []string, err error) {
+	sites, sources, typeErrs, _, err = ExtractAll(repo)
+	return
+}
+
+// ExtractAll also returns the files that are only built with the tag `verif` (hook code).
+func ExtractAll(repo string) (sites, sources []siteRec, typeErrs []string, hooks []string, err error) {
 	cwd, _ := os.Getwd()
 	if e := os.Chdir(repo); e != nil {
-		return nil, nil, nil, e
+		return nil, nil, nil, nil, e
 	}
 	defer os.Chdir(cwd)
 	var dirs []string
@@ -311,6 +327,9 @@ func Extract(repo string) (sites, sources []siteRec, typeErrs []string, err erro
 	ctx := build.Default
 	ctx.BuildTags = append(ctx.BuildTags, "verif")
 	ctx.CgoEnabled = false
+	plain := build.Default // a normal build: without the tag
+	plain.CgoEnabled = false
+	hookFile := map[string]bool{}
 	errT := types.Universe.Lookup("error").Type().Underlying().(*types.Interface)
 	// fmt.Stringer built by hand (method String() string)
 	strSig := types.NewSignatureType(nil, nil, nil, nil, types.NewTuple(types.NewVar(token.NoPos, nil, "", types.Typ[types.String])), false)
@@ -328,6 +347,10 @@ func Extract(repo string) (sites, sources []siteRec, typeErrs []string, err erro
 			}
 			if ok, _ := ctx.MatchFile(dir, n); !ok {
 				continue
+			}
+			if ok, _ := plain.MatchFile(dir, n); !ok {
+				// only built with the tag `verif`: verification hook code, not part of a normal build
+				hookFile[filepath.ToSlash(filepath.Join(rel, n))] = true
 			}
 			f, perr := parser.ParseFile(fset, filepath.Join(dir, n), nil, parser.ParseComments)
 			if perr != nil {
@@ -362,6 +385,10 @@ func Extract(repo string) (sites, sources []siteRec, typeErrs []string, err erro
 		for _, f := range files {
 			fname, _ := filepath.Rel(repo, fset.Position(f.Pos()).Filename)
 			fname = filepath.ToSlash(fname)
+			fscope := scope
+			if hookFile[fname] {
+				fscope = "hook"
+			}
 			for _, d := range f.Decls {
 				dn := declName(d)
 				var stack []ast.Node
@@ -396,7 +423,7 @@ func Extract(repo string) (sites, sources []siteRec, typeErrs []string, err erro
 					if kind != "maprange" {
 						key = kind + ":" + key
 					}
-					return siteRec{Key: key, File: fname, Fn: dn, Operand: operand, Scope: scope, Kind: kind, Line: fset.Position(n.Pos()).Line, Guard: guards()}
+					return siteRec{Key: key, File: fname, Fn: dn, Operand: operand, Scope: fscope, Kind: kind, Line: fset.Position(n.Pos()).Line, Guard: guards()}
 				}
 				enclosingStmt := func() ast.Node {
 					for i := len(stack) - 1; i >= 0; i-- {
@@ -517,6 +544,10 @@ func Extract(repo string) (sites, sources []siteRec, typeErrs []string, err erro
 		}
 		return sources[i].Line < sources[j].Line
 	})
+	for f := range hookFile {
+		hooks = append(hooks, f)
+	}
+	sort.Strings(hooks)
 	return
 }
 
@@ -546,7 +577,7 @@ func repoHash(repo string) string {
 	return fmt.Sprintf("%x", h.Sum(nil))[:24]
 }
 
-func render(sites, sources []siteRec, typeErrs []string) string {
+func render(sites, sources []siteRec, typeErrs []string, hooks []string) string {
 	var b strings.Builder
 	b.WriteString("-- GENERATED by harness/c18/extract.go (vh gen-tables) from the working tree of the repository; do not edit.\n")
 	b.WriteString("-- Table (c) of DESIGN §4.1: every `range` over a map in non-test code, and the other sources of\n")
@@ -572,6 +603,14 @@ func render(sites, sources []siteRec, typeErrs []string) string {
 		}
 		b.WriteString("\n  " + leanStr(e))
 	}
+	b.WriteString("]\n\n-- files built only with the tag `verif` (verification hooks; not part of a normal build): scope \"hook\"\n")
+	b.WriteString("def hookFiles : List String := [")
+	for i, e := range hooks {
+		if i > 0 {
+			b.WriteString(", ")
+		}
+		b.WriteString(leanStr(e))
+	}
 	b.WriteString("]\n\nend Gotree.Gen.C18Sites\n")
 	return b.String()
 }
@@ -588,11 +627,11 @@ func GenTables(repo, out string) error {
 	if b, err := os.ReadFile(cache); err == nil {
 		content = string(b)
 	} else {
-		sites, sources, terrs, err := Extract(repo)
+		sites, sources, terrs, hooks, err := ExtractAll(repo)
 		if err != nil {
 			return err
 		}
-		content = render(sites, sources, terrs)
+		content = render(sites, sources, terrs, hooks)
 		os.WriteFile(cache, []byte(content), 0644)
 	}
 	if old, err := os.ReadFile(target); err == nil && string(old) == content {
